@@ -442,7 +442,9 @@ int main()
     else
       r = "?unknown";
     std::string p = "-";
-    if (w->sat.root_level() && op != 'O')
+    // (not after assume: when the assumption conflicts, sat_core analyses the conflict, learns a clause and backjumps -- possibly to
+    //  root level --; that state is C07's subject, the history is not compared beyond the result r=0 of the assume itself)
+    if (w->sat.root_level() && op != 'O' && op != 'A')
       p = w->sat.propagate() ? "1" : "0";
     std::cout << "r=" << r << " p=" << p << observe(*w) << "\n";
   }
